@@ -314,7 +314,9 @@ def validate(ctx, kind, traces, hists, label):
     for v in rc_.violations:
         st = v["state"]
         tid = st.get("tid")
-        if tid is None or (tid, v["inv"]) in seen:
+        if tid is None:
+            raise MachineryError(f"cannot attribute TLC counter-example to a trace: {v}")
+        if (tid, v["inv"]) in seen:
             continue
         if any(t == tid for t, _ in seen):
             continue  # one report per trace (the first failing invariant on the shortest prefix)
